@@ -195,6 +195,21 @@ def check_tree(ctx, case):
                 if m:
                     obs.add(rel(root, m[1], run_cwd))
             judge(obs, "lint-file <every path>")
+            if not outside and not nested and "--root" not in flags:
+                # 3b. the same through a root whose path has a symbolic link in it
+                ldir = ctx.fresh_dir("lnk")
+                os.symlink(str(root), ldir / "via")
+                res = cli.run([*flags, "--root", str(ldir / "via"), "--no-multiprocessing", "lint-file", "--", *[str(ldir / "via" / a) for a in args]], ldir)
+                if res.crash is not None or res.code not in (0, 1):
+                    ctx.fail(cdict, f"lint-file through a symlinked root failed: {res.brief()}")
+                obs2 = set()
+                for ln in res.out.splitlines():
+                    m = _LINTFILE.match(ln)
+                    if m:
+                        obs2.add(os.path.relpath(os.path.realpath(m[1] if os.path.isabs(m[1]) else ldir / m[1]), os.path.realpath(root)))
+                if obs2 != obs:
+                    ctx.fail(cdict, f"lint-file reports different files through a symlinked root: only there {sorted(obs2 - obs)}, only directly {sorted(obs - obs2)}")
+                ctx.label("lint-file:symlinked-root")
         # 4. annotate -r . on a throw-away copy
         copybase = ctx.fresh_dir("copy")
         os.rmdir(copybase)
